@@ -87,8 +87,14 @@ theorem shape_tuple (lo hi df b : Nat) (w : Wide lo hi df) (hdf : df < M) (hb : 
     · simp only [hlast, if_false]
       exact hto
 
-/-- **shape obligation**: the extractor recognised every statement, and the generated arithmetic
-is the model's arithmetic. -/
+/-- `canDivide` (fix-width) of the model is the generated comparison -/
+theorem shape_canDivide (lo hi df : Nat) :
+    canDivide lo hi df = decide (LdiffShape.canDivideL lo hi ≥ LdiffShape.canDivideR df) := by
+  unfold canDivide; rfl
+
+/-- **shape obligation**: the extractor recognised every statement (including the three guards
+`… && canDivide(…)` / `|| !canDivide(…)` of fix-width), and the generated arithmetic is the model's
+arithmetic. -/
 theorem ldiffShape_ok : LdiffShape.shapeOk = true ∧
     (∀ lo hi df, 0 < df → df < M → LdiffShape.align lo hi df = align lo hi df ∧
       LdiffShape.gbAlign lo hi df = align lo hi df) ∧
@@ -101,7 +107,8 @@ theorem ldiffShape_ok : LdiffShape.shapeOk = true ∧
     (∀ lo hi df b, Wide lo hi df → df < M → b < df →
       LdiffShape.gbFrom lo b (perRange lo hi df) = (childRange lo hi df b).1 ∧
       (if b = df - 1 then LdiffShape.gbLastTo (LdiffShape.gbTo lo b (perRange lo hi df)) (align lo hi df)
-       else LdiffShape.gbTo lo b (perRange lo hi df)) = (childRange lo hi df b).2) :=
-  ⟨by decide, shape_align, shape_perRange, shape_loop, shape_tuple⟩
+       else LdiffShape.gbTo lo b (perRange lo hi df)) = (childRange lo hi df b).2) ∧
+    (∀ lo hi df, canDivide lo hi df = decide (LdiffShape.canDivideL lo hi ≥ LdiffShape.canDivideR df)) :=
+  ⟨by decide, shape_align, shape_perRange, shape_loop, shape_tuple, shape_canDivide⟩
 
 end AnySync.Ldiff
